@@ -82,6 +82,46 @@ def sweep_laws(run):
                                dict(s1=s2, s2=s1, swapped=True, **base)))
                 if len(violations) > 5:
                     break
+    # multivariate series (ndim = 2): the same laws on dtw.distance(use_ndim=True) and on the C kernel dtw_distance_ndim
+    import numpy as np
+    nd_jobs = []
+    for r, c in shapes(max_len + 1):
+        for rep in range(1 if quick else 3):
+            s1 = [[rng.choice(VALS), rng.choice(VALS)] for _ in range(r)]
+            s2 = [[rng.choice(VALS), rng.choice(VALS)] for _ in range(c)]
+            for metric in ('squared euclidean', 'euclidean'):
+                w = rng.choice([None] + list(range(1, max(r, c) + 1)))
+                pen = rng.choice([None, 0.5])
+                psi = tuple(rng.randint(0, min(1, n - 1)) for n in (r, r, c, c))
+                base = dict(window=w, penalty=pen, psi=psi, inner_dist=metric, use_ndim=True)
+                a1, a2 = np.array(s1, dtype=np.double), np.array(s2, dtype=np.double)
+                d = float(dtw.distance(a1, a2, **base))
+                evaluations += 1
+                nontrivial.add((r, c, w, pen, psi, metric, 'nd', str(s1), str(s2)))
+                if d < 0:
+                    bad('non-negativity (ndim)', dict(s1=s1, s2=s2, **base))
+                if not close(float(dtw.distance(a1, a1, **base)), 0.0):
+                    bad('identity (ndim)', dict(s1=s1, **base))
+                sw = dict(base, psi=(psi[2], psi[3], psi[0], psi[1]))
+                if not close(float(dtw.distance(a2, a1, **sw)), d):
+                    bad('symmetry (ndim)', dict(s1=s1, s2=s2, **base))
+                if w is not None and float(dtw.distance(a1, a2, **dict(base, window=w + 1))) > d + 1e-12:
+                    bad('window monotonicity (ndim)', dict(s1=s1, s2=s2, **base))
+                m = 0 if metric == 'squared euclidean' else 1
+                f1, f2 = [fx(x) for p_ in s1 for x in p_], [fx(x) for p_ in s2 for x in p_]
+                nd_jobs.append((dict(s1={'buf': f1}, l1=r, s2={'buf': f2}, l2=c, ndim=2, settings=c_settings(w, psi, pen, None, m)), d,
+                                dict(s1=s1, s2=s2, **base)))
+                nd_jobs.append((dict(s1={'buf': f2}, l1=c, s2={'buf': f1}, l2=r, ndim=2,
+                                     settings=c_settings(w, (psi[2], psi[3], psi[0], psi[1]), pen, None, m)), d,
+                                dict(s1=s2, s2=s1, swapped=True, **base)))
+    outs_nd = creplay.native_c_calls(run.program, 'dd_dtw.c::dtw_distance_ndim', [j[0] for j in nd_jobs])
+    for (a, d, detail), o in zip(nd_jobs, outs_nd):
+        evaluations += 1
+        got = float.fromhex(o['result']['f']) if o and o.get('ok') else 'crash'
+        if got == 'crash' or not close(got, d) or (got != INF and got < 0):
+            violations.append(dict(function='dd_dtw.c::dtw_distance_ndim',
+                                   what='C engine (ndim): symmetry / agreement with the Python value', failing_input=detail,
+                                   engine=got, expected=d))
     outs = creplay.native_c_calls(run.program, 'dd_dtw.c::dtw_distance', [j[0] for j in c_jobs])
     for (a, d, detail), o in zip(c_jobs, outs):
         evaluations += 1
